@@ -1,4 +1,6 @@
--- stub: component `thr` not built yet
+import Driver.Thr
+open Driver
+
 def main : IO UInt32 := do
-  IO.eprintln "driver-thr: not implemented"
-  return 2
+  runComponent Thr.init Thr.step
+  return 0
